@@ -59,6 +59,16 @@ pub enum Op {
     SolveTimed { us: u64 },
     /// `PRM::construct_roadmap()` with `timeout = us` microseconds, no budget
     ConstructTimed { us: u64 },
+    /// assignment to the planner's public parameter fields between calls (`max_distance`,
+    /// `goal_bias`, `search_radius` / `connection_radius`), as a caller re-tuning a planner would
+    SetParams {
+        #[serde(with = "crate::xf::as_xf")]
+        step: f64,
+        #[serde(with = "crate::xf::as_xf")]
+        goal_bias: f64,
+        #[serde(with = "crate::xf::as_xf")]
+        radius: f64,
+    },
 }
 
 #[derive(Clone, Debug, PartialEq, Serialize, Deserialize)]
@@ -85,9 +95,21 @@ pub struct PlanCase {
     /// (a re-setup with a different obstacle set)
     #[serde(default)]
     pub world2: Option<World>,
+    /// if set, problem 1 lives in this space instead of `space`: same kind, layout and weights
+    /// (hence the same metric and state encoding) with tighter bounds, built as its own space
+    /// object - a planner object re-used for a query in another space
+    #[serde(default)]
+    pub space2: Option<SpaceCfg>,
 }
 
 impl PlanCase {
+    /// the space configuration of problem i
+    pub fn space_for(&self, problem: usize) -> &SpaceCfg {
+        match (&self.space2, problem) {
+            (Some(s), 1) => s,
+            _ => &self.space,
+        }
+    }
     /// index of the world whose checker `setup(problem i)` installs
     pub fn world_index_for(&self, problem: usize) -> usize {
         if problem == 1 && self.world2.is_some() {
@@ -196,6 +218,8 @@ pub struct Step {
     /// the validity-query cap fired during this step (the budget was zeroed mid-call, which also
     /// resets the tick counter: `ticks` is meaningless for this step)
     pub cap_fired: bool,
+    /// (max_distance, goal_bias, search / connection radius) in effect during this step
+    pub params: (f64, f64, f64),
 }
 
 #[derive(Clone, Debug)]
@@ -357,12 +381,29 @@ pub fn build_case<K: Kind>(case: &PlanCase) -> Result<Built<K>, String> {
         cfg: case.space.clone(),
         rec: rec.clone(),
     });
+    let second_space = match &case.space2 {
+        Some(cfg2) => {
+            let sp2 = K::build(cfg2)?;
+            #[allow(clippy::arc_with_non_send_sync)]
+            let w = Arc::new(WSpace::<K> {
+                inner: sp2.clone(),
+                cfg: cfg2.clone(),
+                rec: rec.clone(),
+            });
+            Some((sp2, w))
+        }
+        None => None,
+    };
     let mut pds = Vec::new();
-    for p in &case.problems {
+    for (pi, p) in case.problems.iter().enumerate() {
         if p.start.len() != case.space.width() {
             return Err("start width".into());
         }
-        let goal = WGoal::<K>::new(&p.goal, &case.space, space.clone(), rec.clone());
+        let (p_cfg, p_inner, p_shared) = match (&second_space, pi) {
+            (Some((sp2, w)), 1) => (case.space_for(1), sp2.clone(), w.clone()),
+            _ => (&case.space, space.clone(), shared_space.clone()),
+        };
+        let goal = WGoal::<K>::new(&p.goal, p_cfg, p_inner, rec.clone());
         let starts = if case.empty_starts || p.no_start {
             vec![]
         } else {
@@ -376,7 +417,7 @@ pub fn build_case<K: Kind>(case: &PlanCase) -> Result<Built<K>, String> {
         };
         #[allow(clippy::arc_with_non_send_sync)]
         pds.push(Arc::new(ProblemDefinition {
-            space: shared_space.clone(),
+            space: p_shared,
             start_states: starts,
             goal: Arc::new(goal),
         }));
@@ -413,7 +454,11 @@ pub fn run_case<K: Kind>(case: &PlanCase) -> Result<Trace, String> {
     let mut planner = AnyPlanner::<K>::new(case);
     let mut steps = Vec::new();
     let mut dead = false;
+    let mut params = (case.step, case.goal_bias, case.radius);
     for op in &case.ops {
+        if let Op::SetParams { step, goal_bias, radius } = op {
+            params = (*step, *goal_bias, *radius);
+        }
         let cap_before = b.rec.borrow().cap_hit;
         let (v0, s0, g0, u0, gc0) = {
             let r = b.rec.borrow();
@@ -466,7 +511,9 @@ pub fn run_case<K: Kind>(case: &PlanCase) -> Result<Trace, String> {
                     if let AnyPlanner::Prm(p) = &mut planner {
                         p.timeout = *us as f64 * 1e-6;
                         oxmpl::verif::set_budget(None);
-                        match p.construct_roadmap() {
+                        let r = p.construct_roadmap();
+                        ticks = oxmpl::verif::ticks_used();
+                        match r {
                             Ok(()) => Res::Unit,
                             Err(e) => Res::Err(err_name(&e)),
                         }
@@ -486,10 +533,33 @@ pub fn run_case<K: Kind>(case: &PlanCase) -> Result<Trace, String> {
                 }
                 Op::SolveTimed { us } => {
                     oxmpl::verif::set_budget(None);
-                    match planner.solve(Duration::from_micros(*us)) {
+                    let r = planner.solve(Duration::from_micros(*us));
+                    // iterations (PRM: none) started by this call: the hook counts them even
+                    // when no budget is armed
+                    ticks = oxmpl::verif::ticks_used();
+                    match r {
                         Ok(p) => Res::Path(path_flat::<K>(p)),
                         Err(e) => Res::Err(err_name(&e)),
                     }
+                }
+                Op::SetParams { step, goal_bias, radius } => {
+                    match &mut planner {
+                        AnyPlanner::Rrt(p) => {
+                            p.max_distance = *step;
+                            p.goal_bias = *goal_bias;
+                        }
+                        AnyPlanner::Con(p) => {
+                            p.max_distance = *step;
+                            p.goal_bias = *goal_bias;
+                        }
+                        AnyPlanner::Star(p) => {
+                            p.max_distance = *step;
+                            p.goal_bias = *goal_bias;
+                            p.search_radius = *radius;
+                        }
+                        AnyPlanner::Prm(p) => p.connection_radius = *radius,
+                    }
+                    Res::Unit
                 }
             });
             oxmpl::verif::set_budget(None);
@@ -519,6 +589,7 @@ pub fn run_case<K: Kind>(case: &PlanCase) -> Result<Trace, String> {
             elapsed,
             ticks,
             cap_fired: r.cap_hit && !cap_before,
+            params,
         });
     }
     let rec = b.rec.borrow().clone();
